@@ -258,7 +258,7 @@ Qed.
 (* ------------------------------------------------------------------ one library *)
 
 (* the tree after a round of the loop in which no object fails *)
-Definition step0 (loc : nat) (l : lib) (root : list rchild) : list rchild :=
+Definition step0r (loc : nat) (l : lib) (root : list rchild) : list rchild :=
   match find_tag (ltag l) root, larr l with
   | None, [] => root
   | Some _, [] => remove_first (ltag l) root
@@ -268,7 +268,7 @@ Definition step0 (loc : nat) (l : lib) (root : list rchild) : list rchild :=
 
 (* the tree after a round in which an object fails: the children are whatever they were,
    some refreshed in place *)
-Definition stepF (loc : nat) (l : lib) (g : list (N * N) -> list (N * N)) (root : list rchild) :=
+Definition stepFr (loc : nat) (l : lib) (g : list (N * N) -> list (N * N)) (root : list rchild) :=
   match find_tag (ltag l) root with
   | None => insert_at loc (set_kids (g []) (new_el (ltag l))) root
   | Some _ => update_first (ltag l) (fun c => set_kids (g (rkids c)) c) root
@@ -277,10 +277,10 @@ Definition stepF (loc : nat) (l : lib) (g : list (N * N) -> list (N * N)) (root 
 Lemma lib_step_shape_d bad loc l root0 root' l' x : lib_step bad loc l root0 = (root', l', x) ->
   let root := dedupe (ltag l) root0 in
   pt_lib l' l /\ map oview (larr l') = map oview (larr l) /\
-  (x = None -> root' = step0 loc l root /\ l' = touchlib l) /\
-  (forall e, x = Some e -> larr l <> [] /\ exists g, root' = stepF loc l g root).
+  (x = None -> root' = step0r loc l root /\ l' = touchlib l) /\
+  (forall e, x = Some e -> larr l <> [] /\ exists g, root' = stepFr loc l g root).
 Proof.
-  unfold lib_step, step0, stepF. intro E. simpl. set (root := dedupe (ltag l) root0) in *.
+  unfold lib_step, step0r, stepFr. intro E. simpl. set (root := dedupe (ltag l) root0) in *.
   destruct (larr l) as [|o r] eqn:EA.
   - destruct (find_tag (ltag l) root); inversion E; subst;
       (split; [apply pt_lib_refl|]); (split; [rewrite EA; reflexivity|]); (split; [|intros e X; discriminate]);
@@ -309,35 +309,25 @@ Proof.
         -- unfold touchlib. rewrite app_nil_r, A1. reflexivity.
 Qed.
 
-Lemma lib_step_shape bad loc l root root' l' x : lib_step bad loc l root = (root', l', x) ->
-  pt_lib l' l /\ map oview (larr l') = map oview (larr l) /\
-  (count_tag (ltag l) root <= 1 ->
-   (x = None -> root' = step0 loc l root /\ l' = touchlib l) /\
-   (forall e, x = Some e -> larr l <> [] /\ exists g, root' = stepF loc l g root)).
+(* step0r depends on the library through its tag, emptiness and K only *)
+Lemma step0_pt_r loc l' l root : pt_lib l' l -> step0r loc l' root = step0r loc l root.
 Proof.
-  intro E. destruct (lib_step_shape_d _ _ _ _ _ _ _ E) as (P & V & A & B).
-  split; [exact P|]. split; [exact V|]. intro C. rewrite (dedupe_id _ _ C) in A, B. split; assumption.
-Qed.
-
-(* step0 depends on the library through its tag, emptiness and K only *)
-Lemma step0_pt loc l' l root : pt_lib l' l -> step0 loc l' root = step0 loc l root.
-Proof.
-  intro P. unfold step0. rewrite (pt_lib_K _ _ P).
+  intro P. unfold step0r. rewrite (pt_lib_K _ _ P).
   destruct P as (T & R & F). rewrite T.
   inversion F; reflexivity.
 Qed.
 
-Lemma absorb loc l root : lib_synced root l -> step0 loc l root = root.
+Lemma absorb_r loc l root : lib_synced root l -> step0r loc l root = root.
 Proof.
-  unfold lib_synced, step0. destruct (larr l) as [|o r] eqn:EA.
+  unfold lib_synced, step0r. destruct (larr l) as [|o r] eqn:EA.
   - intro A. rewrite A. reflexivity.
   - intros (c & F & KK). rewrite F. eapply update_first_id; [exact F|].
     unfold set_kids. fold (K l) in KK. unfold K. rewrite EA. rewrite <- KK. destruct c; reflexivity.
 Qed.
 
-Lemma synced_after loc l root : count_tag (ltag l) root <= 1 -> lib_synced (step0 loc l root) l.
+Lemma synced_after_r loc l root : count_tag (ltag l) root <= 1 -> lib_synced (step0r loc l root) l.
 Proof.
-  intro C. unfold lib_synced, step0. destruct (larr l) as [|o r] eqn:EA.
+  intro C. unfold lib_synced, step0r. destruct (larr l) as [|o r] eqn:EA.
   - destruct (find_tag (ltag l) root) eqn:F; [apply find_tag_remove_same; exact C|exact F].
   - destruct (find_tag (ltag l) root) as [c|] eqn:F.
     + exists (set_kids (K l) c). split.
@@ -349,18 +339,18 @@ Proof.
 Qed.
 
 (* a round for another tag leaves [find_tag t] alone *)
-Lemma find_step0_other loc l root t : t <> ltag l -> find_tag t (step0 loc l root) = find_tag t root.
+Lemma find_step0_other_r loc l root t : t <> ltag l -> find_tag t (step0r loc l root) = find_tag t root.
 Proof.
-  intro N. unfold step0.
+  intro N. unfold step0r.
   destruct (find_tag (ltag l) root), (larr l); try reflexivity.
   - apply find_tag_remove_other; exact N.
   - apply find_tag_update_other; [apply keeps_set_kids|exact N].
   - apply find_tag_insert_other. simpl. congruence.
 Qed.
 
-Lemma find_stepF_other loc l g root t : t <> ltag l -> find_tag t (stepF loc l g root) = find_tag t root.
+Lemma find_stepF_other_r loc l g root t : t <> ltag l -> find_tag t (stepFr loc l g root) = find_tag t root.
 Proof.
-  intro N. unfold stepF. destruct (find_tag (ltag l) root).
+  intro N. unfold stepFr. destruct (find_tag (ltag l) root).
   - apply find_tag_update_other; [intro c; reflexivity|exact N].
   - apply find_tag_insert_other. simpl. congruence.
 Qed.
@@ -369,10 +359,10 @@ Lemma synced_find root root' l : find_tag (ltag l) root' = find_tag (ltag l) roo
   lib_synced root l -> lib_synced root' l.
 Proof. unfold lib_synced. intro E. rewrite E. exact (fun x => x). Qed.
 
-Lemma count_step0_le loc l root t : (t = ltag l -> count_tag t root <= 1) ->
-  count_tag t root <= 1 -> count_tag t (step0 loc l root) <= 1.
+Lemma count_step0_le_r loc l root t : (t = ltag l -> count_tag t root <= 1) ->
+  count_tag t root <= 1 -> count_tag t (step0r loc l root) <= 1.
 Proof.
-  intros CL C. unfold step0.
+  intros CL C. unfold step0r.
   destruct (find_tag (ltag l) root) eqn:F, (larr l); try exact C.
   - eapply Nat.le_trans; [apply count_remove_le|exact C].
   - rewrite count_update by apply keeps_set_kids. exact C.
@@ -381,9 +371,9 @@ Proof.
     apply N.eqb_eq in E. subst t. apply count_zero_find in F. rewrite F. apply le_n.
 Qed.
 
-Lemma count_stepF_le loc l g root t : count_tag t root <= 1 -> count_tag t (stepF loc l g root) <= 1.
+Lemma count_stepF_le_r loc l g root t : count_tag t root <= 1 -> count_tag t (stepFr loc l g root) <= 1.
 Proof.
-  intro C. unfold stepF. destruct (find_tag (ltag l) root) eqn:F.
+  intro C. unfold stepFr. destruct (find_tag (ltag l) root) eqn:F.
   - rewrite count_update by (intro c; reflexivity). exact C.
   - rewrite count_insert. simpl. unfold has_tag at 1. simpl.
     destruct (N.eqb (ltag l) t) eqn:E; [|exact C].
@@ -391,9 +381,9 @@ Proof.
 Qed.
 
 (* redoing the round after a failed one gives what the round gives *)
-Lemma step0_stepF loc l g root : larr l <> [] -> step0 loc l (stepF loc l g root) = step0 loc l root.
+Lemma step0_stepF_r loc l g root : larr l <> [] -> step0r loc l (stepFr loc l g root) = step0r loc l root.
 Proof.
-  intro NE. unfold step0, stepF. destruct (larr l) as [|o r]; [congruence|].
+  intro NE. unfold step0r, stepFr. destruct (larr l) as [|o r]; [congruence|].
   destruct (find_tag (ltag l) root) as [c|] eqn:F.
   - rewrite find_tag_update_same by (intro d; reflexivity). rewrite F. simpl.
     rewrite update_first_twice by (intro d; reflexivity). apply update_first_ext. intro d. reflexivity.
@@ -401,52 +391,157 @@ Proof.
     rewrite update_first_insert_absent; [reflexivity|exact F|reflexivity].
 Qed.
 
+(* ---- the round as save() runs it: later elements of the library's name are removed first *)
+
+Lemma find_dedupe_other t' t R : t' <> t -> forall seen, find_tag t' (dedupe_from t seen R) = find_tag t' R.
+Proof.
+  intro N. induction R as [|c r IH]; intro seen; [reflexivity|]. simpl.
+  destruct (has_tag t c) eqn:E.
+  - assert (X : has_tag t' c = false).
+    { apply has_tag_neq. apply has_tag_eq in E. congruence. }
+    rewrite X. destruct seen; [apply IH|]. simpl. rewrite X. apply IH.
+  - simpl. destruct (has_tag t' c); [reflexivity|apply IH].
+Qed.
+
+Lemma find_dedupe_same t R : find_tag t (dedupe t R) = find_tag t R.
+Proof.
+  unfold dedupe. induction R as [|c r IH]; [reflexivity|]. simpl.
+  destruct (has_tag t c) eqn:E; simpl; rewrite E; [reflexivity|exact IH].
+Qed.
+
+Lemma find_dedupe t' t R : find_tag t' (dedupe t R) = find_tag t' R.
+Proof.
+  destruct (N.eq_dec t' t) as [X|X]; [subst; apply find_dedupe_same|apply find_dedupe_other; exact X].
+Qed.
+
+Lemma count_dedupe_le t' t R : forall seen, count_tag t' (dedupe_from t seen R) <= count_tag t' R.
+Proof.
+  induction R as [|c r IH]; intro seen; [apply le_n|]. simpl.
+  destruct (has_tag t c).
+  - destruct seen; rewrite ?count_cons; specialize (IH true); destruct (has_tag t' c); lia.
+  - rewrite !count_cons. specialize (IH seen). destruct (has_tag t' c); lia.
+Qed.
+
+Lemma count_dedupe_seen t R : count_tag t (dedupe_from t true R) = 0.
+Proof.
+  induction R as [|c r IH]; [reflexivity|]. simpl.
+  destruct (has_tag t c) eqn:E; [exact IH|]. rewrite count_cons, E. exact IH.
+Qed.
+
+Lemma count_dedupe_same t R : count_tag t (dedupe t R) <= 1.
+Proof.
+  unfold dedupe. induction R as [|c r IH]; [apply Nat.le_0_l|]. simpl.
+  destruct (has_tag t c) eqn:E; rewrite count_cons, E.
+  - rewrite count_dedupe_seen. apply le_n.
+  - exact IH.
+Qed.
+
+Lemma dedupe_cons_other t a rest : rtag a <> t -> dedupe t (a :: rest) = a :: dedupe t rest.
+Proof. intro N. apply has_tag_neq in N. unfold dedupe. simpl. rewrite N. reflexivity. Qed.
+
+Definition step0 (loc : nat) (l : lib) (root : list rchild) : list rchild :=
+  step0r loc l (dedupe (ltag l) root).
+Definition stepF (loc : nat) (l : lib) (g : list (N * N) -> list (N * N)) (root : list rchild) :=
+  stepFr loc l g (dedupe (ltag l) root).
+
+Lemma lib_step_shape bad loc l root root' l' x : lib_step bad loc l root = (root', l', x) ->
+  pt_lib l' l /\ map oview (larr l') = map oview (larr l) /\
+  (x = None -> root' = step0 loc l root /\ l' = touchlib l) /\
+  (forall e, x = Some e -> larr l <> [] /\ exists g, root' = stepF loc l g root).
+Proof. intro E. exact (lib_step_shape_d _ _ _ _ _ _ _ E). Qed.
+
+Lemma step0_pt loc l' l root : pt_lib l' l -> step0 loc l' root = step0 loc l root.
+Proof.
+  intro P. unfold step0. rewrite (step0_pt_r _ _ _ _ P). destruct P as (T & _). rewrite T. reflexivity.
+Qed.
+
+(* the library is done: the tree says what the model says about it, and only once *)
+Definition lib_done (root : list rchild) (l : lib) : Prop :=
+  lib_synced root l /\ count_tag (ltag l) root <= 1.
+
+Lemma absorb loc l root : lib_done root l -> step0 loc l root = root.
+Proof. intros [S C]. unfold step0. rewrite (dedupe_id _ _ C). apply absorb_r. exact S. Qed.
+
+Lemma count_step0_le loc l root t : count_tag t root <= 1 -> count_tag t (step0 loc l root) <= 1.
+Proof.
+  intro C. unfold step0. apply count_step0_le_r.
+  - intro X. subst t. apply count_dedupe_same.
+  - eapply Nat.le_trans; [apply count_dedupe_le|exact C].
+Qed.
+
+Lemma count_step0_self loc l root : count_tag (ltag l) (step0 loc l root) <= 1.
+Proof. unfold step0. apply count_step0_le_r; intros; apply count_dedupe_same. Qed.
+
+Lemma count_stepF_le loc l g root t : count_tag t root <= 1 -> count_tag t (stepF loc l g root) <= 1.
+Proof.
+  intro C. unfold stepF. apply count_stepF_le_r. eapply Nat.le_trans; [apply count_dedupe_le|exact C].
+Qed.
+
+Lemma count_stepF_self loc l g root : count_tag (ltag l) (stepF loc l g root) <= 1.
+Proof. unfold stepF. apply count_stepF_le_r. apply count_dedupe_same. Qed.
+
+Lemma done_after loc l root : lib_done (step0 loc l root) l.
+Proof.
+  split; [|apply count_step0_self]. unfold step0. apply synced_after_r. apply count_dedupe_same.
+Qed.
+
+Lemma find_step0_other loc l root t : t <> ltag l -> find_tag t (step0 loc l root) = find_tag t root.
+Proof. intro N. unfold step0. rewrite find_step0_other_r by exact N. apply find_dedupe. Qed.
+
+Lemma find_stepF_other loc l g root t : t <> ltag l -> find_tag t (stepF loc l g root) = find_tag t root.
+Proof. intro N. unfold stepF. rewrite find_stepF_other_r by exact N. apply find_dedupe. Qed.
+
+Lemma done_step0_other loc l l' root : ltag l <> ltag l' -> lib_done root l -> lib_done (step0 loc l' root) l.
+Proof.
+  intros N [S C]. split; [|apply count_step0_le; exact C].
+  eapply synced_find; [|exact S]. apply find_step0_other. exact N.
+Qed.
+
+Lemma done_stepF_other loc l l' g root : ltag l <> ltag l' -> lib_done root l -> lib_done (stepF loc l' g root) l.
+Proof.
+  intros N [S C]. split; [|apply count_stepF_le; exact C].
+  eapply synced_find; [|exact S]. apply find_stepF_other. exact N.
+Qed.
+
+(* redoing the round after a failed one gives what the round gives *)
+Lemma step0_stepF loc l g root : larr l <> [] -> step0 loc l (stepF loc l g root) = step0 loc l root.
+Proof.
+  intro NE. unfold step0 at 1. rewrite (dedupe_id _ _ (count_stepF_self loc l g root)).
+  unfold stepF, step0. apply step0_stepF_r. exact NE.
+Qed.
+
 (* ------------------------------------------------------------------ the library loop *)
 
 Definition tloop (loc : nat) (libs : list lib) (root : list rchild) : list rchild :=
   fold_left (fun r l => step0 loc l r) libs root.
 
-Definition uniq_tags (libs : list lib) (root : list rchild) : Prop :=
-  forall l, In l libs -> count_tag (ltag l) root <= 1.
-
-Lemma uniq_step0 loc l libs root : uniq_tags (l :: libs) root -> uniq_tags libs (step0 loc l root).
-Proof.
-  intros U m I. apply count_step0_le.
-  - intros _. apply U. right. exact I.
-  - apply U. right. exact I.
-Qed.
-
 Lemma libs_loop_shape bad loc libs : forall root root' libs' x,
   libs_loop bad loc libs root = (root', libs', x) ->
   Forall2 pt_lib libs' libs /\
   map lview libs' = map lview libs /\
-  (uniq_tags libs root ->
-   (x = None -> root' = tloop loc libs root /\ libs' = map touchlib libs) /\
-   (forall e, x = Some e -> exists pre lj post g,
-      libs = pre ++ lj :: post /\ larr lj <> [] /\ root' = stepF loc lj g (tloop loc pre root))).
+  (x = None -> root' = tloop loc libs root /\ libs' = map touchlib libs) /\
+  (forall e, x = Some e -> exists pre lj post g,
+      libs = pre ++ lj :: post /\ larr lj <> [] /\ root' = stepF loc lj g (tloop loc pre root)).
 Proof.
   induction libs as [|l rest IH]; simpl; intros root root' libs' x E.
-  - inversion E; subst. split; [constructor|]. split; [reflexivity|]. intros _.
+  - inversion E; subst. split; [constructor|]. split; [reflexivity|].
     split; [intros _; split; reflexivity|intros e X; discriminate].
   - destruct (lib_step bad loc l root) as [[root1 l1] y] eqn:E1.
-    destruct (lib_step_shape _ _ _ _ _ _ _ E1) as (P & V & AB).
+    destruct (lib_step_shape _ _ _ _ _ _ _ E1) as (P & V & A & B).
     assert (LV : lview l1 = lview l).
     { unfold lview. destruct P as (T & R & _). rewrite T, R, V. reflexivity. }
     destruct y as [e|].
     + inversion E; subst. split.
       { constructor; [exact P|]. clear. induction rest; constructor; [apply pt_lib_refl|assumption]. }
-      split; [simpl; rewrite LV; reflexivity|]. intro U.
-      destruct (AB (U l (or_introl eq_refl))) as [A B].
+      split; [simpl; rewrite LV; reflexivity|].
       split; [intro X; discriminate|].
       intros e0 X. destruct (B e eq_refl) as (NE & g & G).
       exists [], l, rest, g. simpl. split; [reflexivity|]. split; assumption.
     + destruct (libs_loop bad loc rest root1) as [[root2 rest'] z] eqn:E2.
-      inversion E; subst. destruct (IH _ _ _ _ E2) as (F2 & V2 & AB2).
-      split; [constructor; assumption|].
-      split; [simpl; rewrite LV, V2; reflexivity|]. intro U.
-      destruct (AB (U l (or_introl eq_refl))) as [A B].
+      inversion E; subst. destruct (IH _ _ _ _ E2) as (F2 & V2 & A2 & B2).
       destruct (A eq_refl) as [A1 A1']. subst root1.
-      destruct (AB2 (uniq_step0 loc l rest root U)) as [A2 B2].
+      split; [constructor; assumption|].
+      split; [simpl; rewrite LV, V2; reflexivity|].
       split.
       * intro H. destruct (A2 H) as [X1 X2]. subst root'. split; [reflexivity|].
         simpl. rewrite A1', X2. reflexivity.
@@ -460,36 +555,34 @@ Proof.
   simpl. rewrite (step0_pt _ _ _ _ P). apply IH.
 Qed.
 
-Lemma absorb_all loc libs root : Forall (lib_synced root) libs -> tloop loc libs root = root.
+Lemma absorb_all loc libs root : Forall (lib_done root) libs -> tloop loc libs root = root.
 Proof.
   induction libs as [|l rest IH]; intro F; [reflexivity|].
   inversion F; subst. simpl. rewrite absorb by assumption. apply IH. assumption.
 Qed.
 
-Lemma synced_tloop_other loc libs l : ~ In (ltag l) (map ltag libs) -> forall root,
-  lib_synced root l -> lib_synced (tloop loc libs root) l.
+Lemma done_tloop_other loc libs l : ~ In (ltag l) (map ltag libs) -> forall root,
+  lib_done root l -> lib_done (tloop loc libs root) l.
 Proof.
   induction libs as [|m rest IH]; intros NI root S; [exact S|].
   simpl. apply IH.
   - intro X. apply NI. right. exact X.
-  - eapply synced_find; [|exact S]. apply find_step0_other. intro X. apply NI. left. symmetry. exact X.
+  - apply done_step0_other; [|exact S]. intro X. apply NI. left. symmetry. exact X.
 Qed.
 
-Lemma tloop_synced loc libs : NoDup (map ltag libs) -> forall root, uniq_tags libs root ->
-  Forall (lib_synced (tloop loc libs root)) libs.
+Lemma tloop_done loc libs : NoDup (map ltag libs) -> forall root,
+  Forall (lib_done (tloop loc libs root)) libs.
 Proof.
-  induction libs as [|l rest IH]; intros ND root U; [constructor|].
+  induction libs as [|l rest IH]; intros ND root; [constructor|].
   inversion ND as [|? ? NI ND']; subst. simpl. constructor.
-  - apply synced_tloop_other; [exact NI|]. apply synced_after. apply U. left. reflexivity.
-  - apply IH; [exact ND'|]. eapply uniq_step0. exact U.
+  - apply done_tloop_other; [exact NI|]. apply done_after.
+  - apply IH. exact ND'.
 Qed.
 
-Lemma uniq_tloop loc libs all root : uniq_tags all root -> incl libs all -> NoDup (map ltag libs) ->
-  uniq_tags all (tloop loc libs root).
+Lemma count_tloop_le loc libs root x : count_tag x root <= 1 -> count_tag x (tloop loc libs root) <= 1.
 Proof.
-  revert root. induction libs as [|l rest IH]; intros root U I ND; [exact U|].
-  simpl. inversion ND; subst. apply IH; [|intros x X; apply I; right; exact X|assumption].
-  intros m M. apply count_step0_le; intros; apply U; assumption.
+  revert root. induction libs as [|l rest IH]; intros root C; [exact C|]. simpl.
+  apply IH. apply count_step0_le. exact C.
 Qed.
 
 Lemma NoDup_app_l {A} (a b : list A) : NoDup (a ++ b) -> NoDup a.
@@ -502,29 +595,31 @@ Qed.
 (* confluence of the loop: a failed attempt (rounds for pre, a failing round for lj) is
    forgotten by a complete run *)
 Lemma tloop_confluent loc pre lj post g root :
-  NoDup (map ltag (pre ++ lj :: post)) -> uniq_tags (pre ++ lj :: post) root -> larr lj <> [] ->
+  NoDup (map ltag (pre ++ lj :: post)) -> larr lj <> [] ->
   tloop loc (pre ++ lj :: post) (stepF loc lj g (tloop loc pre root)) = tloop loc (pre ++ lj :: post) root.
 Proof.
-  intros ND U NE. unfold tloop at 1 3. rewrite !fold_left_app. fold (tloop loc pre root).
+  intros ND NE. unfold tloop at 1 3. rewrite !fold_left_app. fold (tloop loc pre root).
   set (X := stepF loc lj g (tloop loc pre root)).
   assert (NDpre : NoDup (map ltag pre)).
   { rewrite map_app in ND. apply NoDup_app_l in ND. exact ND. }
   assert (NIj : ~ In (ltag lj) (map ltag pre)).
   { rewrite map_app in ND. simpl in ND. apply NoDup_remove_2 in ND. intro I. apply ND. apply in_or_app. left. exact I. }
-  assert (S : Forall (lib_synced X) pre).
-  { assert (S0 := tloop_synced loc pre NDpre root (fun l I => U l (in_or_app _ _ _ (or_introl I)))).
-    rewrite Forall_forall in *. intros l I. eapply synced_find; [|apply S0; exact I].
-    unfold X. apply find_stepF_other. intro E. apply NIj. rewrite <- E. apply in_map. exact I. }
+  assert (S : Forall (lib_done X) pre).
+  { assert (S0 := tloop_done loc pre NDpre root).
+    rewrite Forall_forall in *. intros l I. unfold X. apply done_stepF_other; [|apply S0; exact I].
+    intro E. apply NIj. rewrite <- E. apply in_map. exact I. }
   fold (tloop loc pre X). rewrite (absorb_all loc pre X S).
   simpl. unfold X. rewrite step0_stepF by exact NE. reflexivity.
 Qed.
 
-Lemma tloop_idem_gen loc libs root X : NoDup (map ltag libs) -> uniq_tags libs root ->
-  (forall l, In l libs -> find_tag (ltag l) X = find_tag (ltag l) (tloop loc libs root)) ->
+Lemma tloop_idem_gen loc libs root X : NoDup (map ltag libs) ->
+  (forall l, In l libs -> find_tag (ltag l) X = find_tag (ltag l) (tloop loc libs root) /\
+                          (count_tag (ltag l) (tloop loc libs root) <= 1 -> count_tag (ltag l) X <= 1)) ->
   tloop loc libs X = X.
 Proof.
-  intros ND U FX. apply absorb_all. assert (S := tloop_synced loc libs ND root U).
-  rewrite Forall_forall in *. intros l I. eapply synced_find; [apply FX; exact I|apply S; exact I].
+  intros ND FX. apply absorb_all. assert (S := tloop_done loc libs ND root).
+  rewrite Forall_forall in *. intros l I. destruct (FX l I) as [F C]. destruct (S l I) as [S1 S2].
+  split; [eapply synced_find; [exact F|exact S1]|apply C; exact S2].
 Qed.
 
 (* ------------------------------------------------------------------ the whole save *)
@@ -542,31 +637,28 @@ Lemma save_in_shape fc m t s' r : save_in fc (St m t) = (s', r) ->
   masset (smodel s') = masset m /\ mscene (smodel s') = mscene m /\
   Forall2 pt_lib (mlibs (smodel s')) (mlibs m) /\
   map lview (mlibs (smodel s')) = map lview (mlibs m) /\
-  (uniq_tags (mlibs m) (root0 m t) ->
-   ((exists sc, stree s' = fin sc (tloop loc (mlibs m) (root0 m t)) /\
+  ((exists sc, stree s' = fin sc (tloop loc (mlibs m) (root0 m t)) /\
                (r = Ok tt -> sc = scene_in fc (mscene m))) \/
    (exists pre lj post g, mlibs m = pre ++ lj :: post /\ larr lj <> [] /\ r <> Ok tt /\
-        stree s' = stepF loc lj g (tloop loc pre (root0 m t))))).
+        stree s' = stepF loc lj g (tloop loc pre (root0 m t)))).
 Proof.
   unfold save_in. simpl smodel. simpl stree. fold (root0 m t).
   change (insert_at 0 (asset_el m) (remove_first a_asset t)) with (root0 m t).
   destruct (libs_loop (fbad fc) (library_loc (root0 m t)) (mlibs m) (root0 m t)) as [[root1 libs'] x] eqn:E.
-  destruct (libs_loop_shape _ _ _ _ _ _ _ E) as (F & V & AB).
+  destruct (libs_loop_shape _ _ _ _ _ _ _ E) as (F & V & A & B).
   destruct x as [e|].
   - intro X. inversion X; subst. simpl.
-    split; [reflexivity|]. split; [reflexivity|]. split; [exact F|]. split; [exact V|]. intro U.
-    destruct (AB U) as [A B].
+    split; [reflexivity|]. split; [reflexivity|]. split; [exact F|]. split; [exact V|].
     right. destruct (B e eq_refl) as (pre & lj & post & g & L & NE & G).
     exists pre, lj, post, g. split; [exact L|]. split; [exact NE|]. split; [discriminate|exact G].
-  - destruct (scene_in fc (mscene m)) as [[su sid]|] eqn:ES.
+  - destruct (A eq_refl) as [A1 A2]. subst root1.
+    destruct (scene_in fc (mscene m)) as [[su sid]|] eqn:ES.
     + destruct (existsb (fun o => N.eqb (ouid o) su) (scenes_of m)); intro X; inversion X; subst; simpl;
-        (split; [reflexivity|]); (split; [reflexivity|]); (split; [exact F|]); (split; [exact V|]); intro U;
-        destruct (AB U) as [A B]; destruct (A eq_refl) as [A1 A2]; subst root1; left.
+        (split; [reflexivity|]); (split; [reflexivity|]); (split; [exact F|]); (split; [exact V|]); left.
       * exists (Some (su, sid)). split; [reflexivity|intros _; reflexivity].
       * exists None. split; [reflexivity|intro; discriminate].
     + intro X; inversion X; subst; simpl.
-      split; [reflexivity|]. split; [reflexivity|]. split; [exact F|]. split; [exact V|]. intro U.
-      destruct (AB U) as [A B]. destruct (A eq_refl) as [A1 A2]. subst root1. left.
+      split; [reflexivity|]. split; [reflexivity|]. split; [exact F|]. split; [exact V|]. left.
       exists None. split; [reflexivity|intros _; reflexivity].
 Qed.
 
@@ -583,15 +675,17 @@ Definition headed (a : rchild) (R : list rchild) : Prop := exists rest, R = a ::
 
 Lemma step0_headed loc l a R : 1 <= loc -> rtag a <> ltag l -> headed a R -> headed a (step0 loc l R).
 Proof.
-  intros L N [rest E]. subst R. apply has_tag_neq in N. unfold step0.
-  destruct (find_tag (ltag l) (a :: rest)), (larr l); simpl; try rewrite N; try (eexists; reflexivity).
+  intros L N [rest E]. subst R. unfold step0. rewrite (dedupe_cons_other _ _ _ N).
+  set (rest' := dedupe (ltag l) rest). apply has_tag_neq in N. unfold step0r.
+  destruct (find_tag (ltag l) (a :: rest')), (larr l); simpl; try rewrite N; try (eexists; reflexivity).
   destruct loc; [lia|]. simpl. eexists; reflexivity.
 Qed.
 
 Lemma stepF_headed loc l g a R : 1 <= loc -> rtag a <> ltag l -> headed a R -> headed a (stepF loc l g R).
 Proof.
-  intros L N [rest E]. subst R. apply has_tag_neq in N. unfold stepF.
-  destruct (find_tag (ltag l) (a :: rest)); simpl; try rewrite N; try (eexists; reflexivity).
+  intros L N [rest E]. subst R. unfold stepF. rewrite (dedupe_cons_other _ _ _ N).
+  set (rest' := dedupe (ltag l) rest). apply has_tag_neq in N. unfold stepFr.
+  destruct (find_tag (ltag l) (a :: rest')); simpl; try rewrite N; try (eexists; reflexivity).
   destruct loc; [lia|]. simpl. eexists; reflexivity.
 Qed.
 
@@ -704,21 +798,14 @@ Proof.
   - simpl. eapply Nat.le_trans; [apply count_remove_le|exact C].
 Qed.
 
-Lemma count_tloop_le loc libs root x : count_tag x root <= 1 -> count_tag x (tloop loc libs root) <= 1.
+(* every tree a save attempt can leave has at most one <asset> again *)
+Lemma single_asset_save fc m t : single_asset t -> single_asset (stree (fst (save_in fc (St m t)))).
 Proof.
-  revert root. induction libs as [|l rest IH]; intros root C; [exact C|]. simpl.
-  apply IH. apply count_step0_le; intros; exact C.
-Qed.
-
-(* every tree a save attempt can leave is well-formed again *)
-Lemma wf_root_save fc m t : wf_root m t -> wf_root m (stree (fst (save_in fc (St m t)))).
-Proof.
-  intros W x M. destruct (save_in fc (St m t)) as [s' r] eqn:E.
-  destruct (save_in_shape _ _ _ _ _ E) as (_ & _ & _ & _ & TT).
-  assert (U : uniq_tags (mlibs m) (root0 m t)) by (intros l I; apply count_root0_le, W, managed_lib, I).
-  destruct (TT U) as [(sc & T & _)|(pre & lj & post & g & _ & _ & _ & T)]; simpl; rewrite T.
-  - apply count_fin_le, count_tloop_le, count_root0_le, W, M.
-  - apply count_stepF_le, count_tloop_le, count_root0_le, W, M.
+  unfold single_asset. intros W. destruct (save_in fc (St m t)) as [s' r] eqn:E.
+  destruct (save_in_shape _ _ _ _ _ E) as (_ & _ & _ & _ & [(sc & T & _)|(pre & lj & post & g & _ & _ & _ & T)]);
+    simpl; rewrite T.
+  - apply count_fin_le, count_tloop_le, count_root0_le, W.
+  - apply count_stepF_le, count_tloop_le, count_root0_le, W.
 Qed.
 
 Lemma libs_loop_nofault loc libs root :
@@ -740,18 +827,16 @@ Proof.
   destruct (libs_loop (fun _ => None) loc rest root1) as [[a b] c]. simpl in *. exact IH.
 Qed.
 
-Lemma save_healthy m t : wf_root m t -> healthy m -> save (St m t) = (St (touchm m) (final m t), Ok tt).
+Lemma save_healthy m t : healthy m -> save (St m t) = (St (touchm m) (final m t), Ok tt).
 Proof.
-  intros W H.
-  assert (U : uniq_tags (mlibs m) (root0 m t)).
-  { intros l I. apply count_root0_le, W, managed_lib, I. } unfold save, save_in. simpl smodel. simpl stree.
+  intros H. unfold save, save_in. simpl smodel. simpl stree.
   change (insert_at 0 (asset_el m) (remove_first a_asset t)) with (root0 m t).
   assert (NF := libs_loop_nofault (library_loc (root0 m t)) (mlibs m) (root0 m t)).
   simpl fbad.
   destruct (libs_loop (fun _ => None) (library_loc (root0 m t)) (mlibs m) (root0 m t)) as [[root1 libs'] x] eqn:E.
   simpl in NF. subst x.
-  destruct (libs_loop_shape _ _ _ _ _ _ _ E) as (_ & _ & AB).
-  destruct (AB U) as [A _]. destruct (A eq_refl) as [A1 A2]. subst.
+  destruct (libs_loop_shape _ _ _ _ _ _ _ E) as (_ & _ & A & _).
+  destruct (A eq_refl) as [A1 A2]. subst.
   unfold final, fin, touchm, scene_in, healthy in *. simpl.
   destruct (mscene m) as [[su sid]|]; [rewrite H|]; reflexivity.
 Qed.
@@ -774,9 +859,6 @@ Qed.
 
 Lemma view_wf_libs m1 m : view m1 = view m -> wf_libs m -> wf_libs m1.
 Proof. intros V. destruct (view_tags _ _ V) as [T _]. unfold wf_libs. rewrite T. exact (fun x => x). Qed.
-
-Lemma view_wf_root m1 m t : view m1 = view m -> wf_root m t -> wf_root m1 t.
-Proof. intros V W x M. apply W. rewrite <- (view_managed _ _ V). exact M. Qed.
 
 Lemma view_healthy m1 m : view m1 = view m -> healthy m -> healthy m1.
 Proof.
@@ -801,7 +883,7 @@ Qed.
 (* ---- confluence: whatever a save attempt in any fault context leaves behind, the next
    complete save gives what a complete save of the original state gives *)
 Theorem save_confluent fc s :
-  wf_libs (smodel s) -> wf_root (smodel s) (stree s) -> healthy (smodel s) ->
+  wf_libs (smodel s) -> single_asset (stree s) -> healthy (smodel s) ->
   save (fst (save_in fc s)) = save s.
 Proof.
   destruct s as [m t]. simpl. intros (ND & NA & NS) W H.
@@ -813,21 +895,14 @@ Proof.
     clear - F. induction F as [|l' l a' a P F IH]; [reflexivity|]. simpl. rewrite IH, (pt_lib_touchlib _ _ P). reflexivity. }
   assert (VW : view m1 = view m) by (unfold view; rewrite A, S, V; reflexivity).
   assert (H1 : healthy m1) by (apply (view_healthy _ _ VW H)).
-  assert (W1 : wf_root m1 t1).
-  { apply (view_wf_root _ _ _ VW). assert (X := wf_root_save fc m t W). rewrite E in X. exact X. }
-  assert (U00 : uniq_tags (mlibs m) (root0 m t)) by (intros l I; apply count_root0_le, W, managed_lib, I).
-  specialize (T U00).
-  rewrite (save_healthy m1 t1 W1 H1), (save_healthy m t W H), TM. f_equal. f_equal.
+  rewrite (save_healthy m1 t1 H1), (save_healthy m t H), TM. f_equal. f_equal.
   rewrite (final_pt m1 m t1 A S F).
   (* the tree side *)
   set (R0 := root0 m t) in *. set (loc := library_loc R0) in *.
   assert (HA : rtag (asset_el m) = a_asset) by reflexivity.
-  assert (C0 : forall x, managed m x = true -> count_tag x R0 <= 1).
-  { intros x M. apply count_root0_le, W, M. }
+  assert (CA : count_tag a_asset R0 <= 1) by (apply count_root0_le; exact W).
   assert (L1 : loc = 1).
-  { unfold loc, R0, root0. apply library_loc_headed; [exact HA|]. apply (C0 a_asset), managed_asset. }
-  assert (U0 : uniq_tags (mlibs m) R0).
-  { intros l I. apply C0, managed_lib, I. }
+  { unfold loc, R0, root0. apply library_loc_headed; [exact HA|exact CA]. }
   assert (HD0 : headed (asset_el m) R0) by (eexists; reflexivity).
   assert (HD1 : headed (asset_el m) t1).
   { destruct T as [(sc & T & _)|(pre & lj & post & g & L & _ & _ & T)]; rewrite T.
@@ -837,20 +912,22 @@ Proof.
       + apply tloop_headed; [lia| |exact HD0].
         intro X. apply NA. rewrite L, map_app. apply in_or_app. left. exact X. }
   assert (C1 : count_tag a_asset t1 <= 1).
-  { assert (W2 := wf_root_save fc m t W). rewrite E in W2. simpl in W2. apply W2, managed_asset. }
+  { assert (W2 := single_asset_save fc m t W). rewrite E in W2. exact W2. }
   assert (R1 : root0 m t1 = t1) by (apply root0_headed_id; exact HD1).
   assert (LL : library_loc t1 = loc).
   { rewrite L1. destruct HD1 as [rest X]. rewrite X in *. apply library_loc_headed; [exact HA|exact C1]. }
   unfold final. rewrite R1, LL. fold R0. fold loc.
   destruct T as [(sc & T & _)|(pre & lj & post & g & L & NE & _ & T)]; rewrite T.
-  - rewrite (tloop_idem_gen loc (mlibs m) R0); [apply fin_fin|exact ND|exact U0|].
-    intros l I. apply find_fin_other. intro X. apply NS. rewrite <- X. apply in_map. exact I.
+  - rewrite (tloop_idem_gen loc (mlibs m) R0); [apply fin_fin|exact ND|].
+    intros l I.
+    assert (NSl : ltag l <> a_scene) by (intro X; apply NS; rewrite <- X; apply in_map; exact I).
+    split; [apply find_fin_other; exact NSl|apply count_fin_le].
   - f_equal. rewrite L. apply tloop_confluent; try rewrite <- L; assumption.
 Qed.
 
 (* saving again without an edit in between changes nothing at all *)
 Theorem save_idempotent s s1 :
-  wf_libs (smodel s) -> wf_root (smodel s) (stree s) -> save s = (s1, Ok tt) -> save s1 = (s1, Ok tt).
+  wf_libs (smodel s) -> single_asset (stree s) -> save s = (s1, Ok tt) -> save s1 = (s1, Ok tt).
 Proof.
   intros WL WR E.
   assert (H : healthy (smodel s)).
@@ -896,9 +973,19 @@ Section Unmanaged.
       + rewrite IH. reflexivity.
   Qed.
 
+  Lemma filter_dedupe t R : q t = false -> forall seen, filter p (dedupe_from t seen R) = filter p R.
+  Proof.
+    intro Q. induction R as [|c r IH]; intro seen; [reflexivity|]. simpl.
+    destruct (has_tag t c) eqn:E.
+    - apply has_tag_eq in E. assert (P1 : p c = false) by (unfold p; rewrite E; exact Q).
+      destruct seen; simpl; rewrite P1; apply IH.
+    - simpl. rewrite IH. reflexivity.
+  Qed.
+
   Lemma filter_step0 loc l R : q (ltag l) = false -> filter p (step0 loc l R) = filter p R.
   Proof.
-    intro Q. unfold step0. destruct (find_tag (ltag l) R), (larr l); try reflexivity.
+    intro Q. unfold step0. rewrite <- (filter_dedupe (ltag l) R Q false). fold (dedupe (ltag l) R).
+    set (D := dedupe (ltag l) R). unfold step0r. destruct (find_tag (ltag l) D), (larr l); try reflexivity.
     - apply filter_remove_first; exact Q.
     - apply filter_update_first; [apply keeps_set_kids|exact Q].
     - apply filter_insert_at; exact Q.
@@ -906,7 +993,8 @@ Section Unmanaged.
 
   Lemma filter_stepF loc l g R : q (ltag l) = false -> filter p (stepF loc l g R) = filter p R.
   Proof.
-    intro Q. unfold stepF. destruct (find_tag (ltag l) R).
+    intro Q. unfold stepF. rewrite <- (filter_dedupe (ltag l) R Q false). fold (dedupe (ltag l) R).
+    set (D := dedupe (ltag l) R). unfold stepFr. destruct (find_tag (ltag l) D).
     - apply filter_update_first; [intro c; reflexivity|exact Q].
     - apply filter_insert_at; exact Q.
   Qed.
@@ -937,13 +1025,11 @@ End Unmanaged.
 
 (* root children outside <asset>, the managed libraries and <scene> keep identity, order and
    subtree - after a complete save and after an interrupted one alike *)
-Theorem unmanaged_preserved fc s : wf_root (smodel s) (stree s) ->
+Theorem unmanaged_preserved fc s :
   unmanaged_children (smodel s) (stree (fst (save_in fc s))) = unmanaged_children (smodel s) (stree s).
 Proof.
-  destruct s as [m t]. simpl. intro W. destruct (save_in fc (St m t)) as [s' r] eqn:E.
-  destruct (save_in_shape _ _ _ _ _ E) as (_ & _ & _ & _ & TT).
-  assert (U : uniq_tags (mlibs m) (root0 m t)) by (intros l I; apply count_root0_le, W, managed_lib, I).
-  specialize (TT U). rename TT into T. simpl.
+  destruct s as [m t]. simpl. destruct (save_in fc (St m t)) as [s' r] eqn:E.
+  destruct (save_in_shape _ _ _ _ _ E) as (_ & _ & _ & _ & T). simpl.
   unfold unmanaged_children.
   set (q := fun x => negb (managed m x)).
   assert (QA : q a_asset = false) by (unfold q; rewrite managed_asset; reflexivity).
@@ -960,25 +1046,22 @@ Qed.
 
 (* ---- the tree after a successful save says what the model says (SPEC [lib_synced]) *)
 Theorem save_syncs s s1 :
-  wf_libs (smodel s) -> wf_root (smodel s) (stree s) -> save s = (s1, Ok tt) ->
+  wf_libs (smodel s) -> single_asset (stree s) -> save s = (s1, Ok tt) ->
   Forall (lib_synced (stree s1)) (mlibs (smodel s)) /\
   hd_error (stree s1) = Some (asset_el (smodel s)) /\
   exists c, find_tag a_scene (stree s1) = Some c /\ rsub c = 0%N /\
             rkids c = match mscene (smodel s) with Some (_, sid) => [(0%N, sid)] | None => [] end.
 Proof.
   destruct s as [m t]. simpl. intros (ND & NA & NS) W E.
-  destruct (save_in_shape _ _ _ _ _ E) as (_ & _ & _ & _ & TT).
-  assert (U00 : uniq_tags (mlibs m) (root0 m t)) by (intros l I; apply count_root0_le, W, managed_lib, I).
-  destruct (TT U00) as [(sc & T & SC)|(pre & lj & post & g & _ & _ & X & _)]; [|congruence].
+  destruct (save_in_shape _ _ _ _ _ E) as (_ & _ & _ & _ & [(sc & T & SC)|(pre & lj & post & g & _ & _ & X & _)]);
+    [|congruence].
   specialize (SC eq_refl). simpl in SC. unfold scene_in in SC. simpl in SC. subst sc.
   rewrite T. set (R0 := root0 m t). set (loc := library_loc R0).
-  assert (C0 : forall x, managed m x = true -> count_tag x R0 <= 1) by (intros x M; apply count_root0_le, W, M).
-  assert (U0 : uniq_tags (mlibs m) R0) by (intros l I; apply C0, managed_lib, I).
   split; [|split].
-  - assert (S := tloop_synced loc (mlibs m) ND R0 U0). rewrite Forall_forall in *. intros l I.
-    eapply synced_find; [|apply S; exact I]. apply find_fin_other. intro Y. apply NS. rewrite <- Y. apply in_map. exact I.
+  - assert (S := tloop_done loc (mlibs m) ND R0). rewrite Forall_forall in *. intros l I.
+    eapply synced_find; [|apply (S l I)]. apply find_fin_other. intro Y. apply NS. rewrite <- Y. apply in_map. exact I.
   - assert (L1 : loc = 1).
-    { unfold loc, R0, root0. apply library_loc_headed; [reflexivity|]. apply (C0 a_asset), managed_asset. }
+    { unfold loc, R0, root0. apply library_loc_headed; [reflexivity|]. apply count_root0_le. exact W. }
     assert (HD : headed (asset_el m) (fin (mscene m) (tloop loc (mlibs m) R0))).
     { apply fin_headed; [discriminate|discriminate|]. apply tloop_headed; [lia|exact NA|eexists; reflexivity]. }
     destruct HD as [rest HD]. rewrite HD. reflexivity.
@@ -1017,7 +1100,7 @@ Proof. rewrite write_in_state. apply save_keeps_view. Qed.
 
 (* the invariant of a history of attempts *)
 Definition hist_inv (s0 s : state) : Prop :=
-  view (smodel s) = view (smodel s0) /\ wf_root (smodel s0) (stree s) /\ save s = save s0.
+  view (smodel s) = view (smodel s0) /\ single_asset (stree s) /\ save s = save s0.
 
 Lemma hist_step s0 s e :
   wf_libs (smodel s0) -> healthy (smodel s0) -> hist_inv s0 s -> hist_inv s0 (run_event s e).
@@ -1028,15 +1111,14 @@ Proof.
   rewrite X. set (fc := match e with ESave fc => fc | EWrite fc _ => fc end).
   split; [|split].
   - rewrite save_keeps_view. exact V.
-  - destruct s as [m t]. simpl in *. apply (view_wf_root _ _ _ (eq_sym V)).
-    apply wf_root_save. apply (view_wf_root _ _ _ V). exact W.
+  - destruct s as [m t]. simpl in *. apply single_asset_save. exact W.
   - rewrite <- S. apply save_confluent.
     + apply (view_wf_libs _ _ V WL).
-    + apply (view_wf_root _ _ _ V W).
+    + exact W.
     + apply (view_healthy _ _ V H).
 Qed.
 
-Lemma hist_all s0 es : wf_libs (smodel s0) -> wf_root (smodel s0) (stree s0) -> healthy (smodel s0) ->
+Lemma hist_all s0 es : wf_libs (smodel s0) -> single_asset (stree s0) -> healthy (smodel s0) ->
   hist_inv s0 (run_events s0 es).
 Proof.
   intros WL WR H. unfold run_events.
@@ -1049,7 +1131,7 @@ Qed.
    bytes, attempts failing in validation at any point, in any order and number - a write to a
    healthy destination delivers exactly what it delivers when nothing was ever attempted *)
 Theorem write_after_failures s es :
-  wf_libs (smodel s) -> wf_root (smodel s) (stree s) -> healthy (smodel s) ->
+  wf_libs (smodel s) -> single_asset (stree s) -> healthy (smodel s) ->
   healthy_bytes (run_events s es) = healthy_bytes s /\
   view (smodel (run_events s es)) = view (smodel s).
 Proof.
@@ -1058,16 +1140,15 @@ Proof.
 Qed.
 
 (* and that write does succeed *)
-Lemma healthy_bytes_some s : wf_root (smodel s) (stree s) -> healthy (smodel s) -> exists b, healthy_bytes s = Some b.
+Lemma healthy_bytes_some s : healthy (smodel s) -> exists b, healthy_bytes s = Some b.
 Proof.
-  intros W H. destruct s as [m t]. unfold healthy_bytes, write, write_in. fold (save (St m t)).
-  rewrite (save_healthy m t W H). simpl. eexists; reflexivity.
+  intros H. destruct s as [m t]. unfold healthy_bytes, write, write_in. fold (save (St m t)).
+  rewrite (save_healthy m t H). simpl. eexists; reflexivity.
 Qed.
 
 (* ------------------------------------------------------------------ boolean checkers for the hypotheses *)
 Definition special_tags (m : model) : list atom := a_asset :: a_scene :: map ltag (mlibs m).
-Definition wf_root_b (m : model) (root : list rchild) : bool :=
-  forallb (fun t => Nat.leb (count_tag t root) 1) (special_tags m).
+Definition single_asset_b (root : list rchild) : bool := Nat.leb (count_tag a_asset root) 1.
 Fixpoint nodup_b (l : list atom) : bool :=
   match l with [] => true | x :: r => negb (existsb (N.eqb x) r) && nodup_b r end.
 Definition wf_libs_b (m : model) : bool := nodup_b (special_tags m) && negb (N.eqb a_asset a_scene).
@@ -1082,11 +1163,8 @@ Proof.
     right. right. apply in_map. exact I.
 Qed.
 
-Lemma wf_root_b_ok m root : wf_root_b m root = true -> wf_root m root.
-Proof.
-  intros B t M. unfold wf_root_b in B. rewrite forallb_forall in B.
-  apply Nat.leb_le. apply B. apply managed_special. exact M.
-Qed.
+Lemma single_asset_b_ok root : single_asset_b root = true -> single_asset root.
+Proof. unfold single_asset_b, single_asset. apply Nat.leb_le. Qed.
 
 Lemma nodup_b_ok l : nodup_b l = true -> NoDup l.
 Proof.
